@@ -79,18 +79,36 @@ def build(ctx):
     l = z3.BitVec('l', 64)
     mv = [lo(a), hi(a), lo(b), hi(b), l]
     pre = bounded([a, b]) + [z3.ULT(l, LIM)]
+    small2 = [z3.ULT(x, 40) for x in mv]
 
     def replay_range_ops(model, r):
         A = (model.get('a.lo', 0), model.get('a.hi', 0))
         B = (model.get('b.lo', 0), model.get('b.hi', 0))
         res = rp.call({'op': 'range_ops', 'a': A, 'b': B})
-        sa = set(range(A[0], A[1] + 1)) if A[1] - A[0] < 100000 else None
-        sb = set(range(B[0], B[1] + 1)) if B[1] - B[0] < 100000 else None
         bad = []
+        ne_a, ne_b = A[0] <= A[1], B[0] <= B[1]
+        inter = ne_a and ne_b and max(A[0], B[0]) <= min(A[1], B[1])
+        subset = (not ne_b) or (ne_a and A[0] <= B[0] and B[1] <= A[1])
+        sa = sb = None
         if 'panic' in res:
             return {'reproduced': True, 'detail': 'panic: ' + res['panic'], 'input': [A, B]}
         if res['is_empty'] != (A[0] > A[1]):
             bad.append('is_empty')
+        if res['intersects'] != inter:
+            bad.append('intersects=%s but sets %s' % (res['intersects'], 'meet' if inter else 'are disjoint'))
+        if res['contains'] != subset:
+            bad.append('contains=%s but subset=%s' % (res['contains'], subset))
+        if res['merge'] is not None:
+            lo_, hi_ = res['merge']
+            # union of two intervals equals [lo_,hi_] ?
+            pts = [A[0], A[1], B[0], B[1], lo_, hi_, lo_ - 1 if lo_ else 0, hi_ + 1, A[1] + 1, B[1] + 1]
+            for x in pts:
+                in_u = (ne_a and A[0] <= x <= A[1]) or (ne_b and B[0] <= x <= B[1])
+                if in_u != (lo_ <= x <= hi_):
+                    bad.append('merge %r is not the union at line %d' % (res['merge'], x))
+                    break
+        elif ne_a and ne_b and not (A[1] + 1 < B[0] or B[1] + 1 < A[0]):
+            bad.append('merge is None although the union is an interval')
         if sa is not None and sb is not None:
             if res['intersects'] != bool(sa & sb):
                 bad.append('intersects')
@@ -108,34 +126,34 @@ def build(ctx):
 
     # ---- Range primitives
     for o in ctx.check_outcomes(eng.run(names['is_empty'], [a], State()), 'is_empty'):
-        ctx.prop('is_empty/iff-lo>hi', o.state.pc + pre, o.value != z3.UGT(lo(a), hi(a)), mv, replay_range_ops)
+        ctx.prop('is_empty/iff-lo>hi', o.state.pc + pre, o.value != z3.UGT(lo(a), hi(a)), mv, replay_range_ops, hint=small2)
     for i, o in enumerate(ctx.check_outcomes(eng.run(names['intersects'], [a, b], State()), 'intersects')):
         w = z3.If(z3.ULT(lo(a), lo(b)), lo(b), lo(a))
-        ctx.prop('intersects/p%d/true=>common-line' % i, o.state.pc + pre, z3.And(o.value, z3.Not(z3.And(inset(a, w), inset(b, w)))), mv, replay_range_ops)
-        ctx.prop('intersects/p%d/common-line=>true' % i, o.state.pc + pre, z3.And(z3.Not(o.value), inset(a, l), inset(b, l)), mv, replay_range_ops)
+        ctx.prop('intersects/p%d/true=>common-line' % i, o.state.pc + pre, z3.And(o.value, z3.Not(z3.And(inset(a, w), inset(b, w)))), mv, replay_range_ops, hint=small2)
+        ctx.prop('intersects/p%d/common-line=>true' % i, o.state.pc + pre, z3.And(z3.Not(o.value), inset(a, l), inset(b, l)), mv, replay_range_ops, hint=small2)
     for i, o in enumerate(ctx.check_outcomes(eng.run(names['contains'], [a, b], State()), 'contains')):
-        ctx.prop('contains/p%d/true=>subset' % i, o.state.pc + pre, z3.And(o.value, inset(b, l), z3.Not(inset(a, l))), mv, replay_range_ops)
+        ctx.prop('contains/p%d/true=>subset' % i, o.state.pc + pre, z3.And(o.value, inset(b, l), z3.Not(inset(a, l))), mv, replay_range_ops, hint=small2)
         ctx.prop('contains/p%d/false=>witness-outside' % i, o.state.pc + pre,
-                 z3.And(z3.Not(o.value), z3.Not(z3.And(nonempty(b), z3.Or(z3.Not(inset(a, lo(b))), z3.Not(inset(a, hi(b))))))), mv, replay_range_ops)
+                 z3.And(z3.Not(o.value), z3.Not(z3.And(nonempty(b), z3.Or(z3.Not(inset(a, lo(b))), z3.Not(inset(a, hi(b))))))), mv, replay_range_ops, hint=small2)
     st = State()
     outs = ctx.check_outcomes(eng.run(names['merge'], [a, b], st), 'merge')
     for i, o in enumerate(outs):
         if o.kind == 'panic':
             # hi + 1 overflow: excluded by the < 2^32 bound; must be unreachable inside it
-            ctx.prop('merge/p%d/no-overflow-inside-bound' % i, o.state.pc + pre, z3.BoolVal(True), mv, replay_range_ops, twin=False)
+            ctx.prop('merge/p%d/no-overflow-inside-bound' % i, o.state.pc + pre, z3.BoolVal(True), mv, replay_range_ops, twin=False, hint=small2)
             continue
         v = o.value
         is_some = v.discr == 1
         if 1 in v.payloads:
             c = v.payloads[1].items[0]
-            ctx.prop('merge/p%d/some=>union' % i, o.state.pc + pre, z3.And(is_some, inset(c, l) != z3.Or(inset(a, l), inset(b, l))), mv, replay_range_ops)
+            ctx.prop('merge/p%d/some=>union' % i, o.state.pc + pre, z3.And(is_some, inset(c, l) != z3.Or(inset(a, l), inset(b, l))), mv, replay_range_ops, hint=small2)
         gap = z3.Or(z3.ULT(hi(a) + 1, lo(b)), z3.ULT(hi(b) + 1, lo(a)))
-        ctx.prop('merge/p%d/none=>not-an-interval' % i, o.state.pc + pre, z3.And(z3.Not(is_some), nonempty(a), nonempty(b), z3.Not(gap)), mv, replay_range_ops)
+        ctx.prop('merge/p%d/none=>not-an-interval' % i, o.state.pc + pre, z3.And(z3.Not(is_some), nonempty(a), nonempty(b), z3.Not(gap)), mv, replay_range_ops, hint=small2)
     for i, o in enumerate(ctx.check_outcomes(eng.run(names['adjacent_to'], [a, b], State()), 'adjacent_to')):
         if o.kind != 'ret':
             continue
         adj = z3.And(nonempty(a), nonempty(b), z3.Or(hi(a) + 1 == lo(b), hi(b) + 1 == lo(a)))
-        ctx.prop('adjacent_to/p%d/iff-touching' % i, o.state.pc + pre, o.value != adj, mv, replay_range_ops)
+        ctx.prop('adjacent_to/p%d/iff-touching' % i, o.state.pc + pre, o.value != adj, mv, replay_range_ops, hint=small2)
 
     # ---- normalize_ranges + FileLines predicates, composed on the real MIR
     norm = eng.find('normalize_ranges', free=True)
